@@ -60,6 +60,22 @@ class ManagerCrashed(Exception):
         return f"{type(self.exc).__name__}@{self.where}"
 
 
+class ManagerSpins(ManagerCrashed):
+    """The manager keeps reading end-of-file from a connection it never removes (it is alive but
+    burns every round on a dead peer and never closes it)."""
+
+    def __init__(self, conn, n):
+        Exception.__init__(self, f"the manager read EOF {n} times from conn {conn} without ever removing it")
+        self.exc = None
+        self.frames = []
+        self.chain = []
+        self.where = "busy_loop"
+        self.conn = conn
+
+    def signature(self) -> str:
+        return "busy_loop_on_dead_connection"
+
+
 class MgrSelect:
     """``select`` module global of pyrtma.manager."""
 
@@ -472,6 +488,13 @@ class World:
                     return -1
             n += 1
             if n > limit:
+                from collections import Counter
+                eofs = Counter(c for (_s, c, how) in self.net.ends if how in ("eof", "rst"))
+                worst = eofs.most_common(1)
+                if worst and worst[0][1] >= 20:
+                    self.manager_crash = ManagerSpins(worst[0][0], worst[0][1])
+                    self.net.log("MGR_SPIN", worst[0][0])
+                    raise self.manager_crash
                 raise SimStall(f"no quiescence after {limit} steps (state {self.mgr_state})")
             self.step()
 
